@@ -15,6 +15,15 @@ pub struct S { pub a: u64, pub v: Vec<u32>, pub o: Option<u32> }
 pub enum E { A(u32), B { x: u64, y: bool }, C }
 """
 
+UPD_EXT = {"Tx.add": {"params": ["u32"], "ret": "Result<u32, ()>", "updates": True}, "Tx.seal": {"params": [], "ret": "()", "updates": True},
+           "Tx.len": {"params": [], "ret": "u32"}}
+
+WC_SRC = "pub struct H { pub node: Arc<Node>, pub id: ChannelId, pub pv: u32 }\n"
+WC_EXT = {"Node.with_channel": {"closure": "Channel", "params": ["ChannelId"]},
+          "Channel.revoke": {"params": ["u64"], "ret": "Result<(PublicKey, Option<SecretKey>), Status>", "updates": True},
+          "Channel.validate": {"params": ["u64"], "ret": "Result<(), Status>", "updates": True},
+          "Channel.activate": {"params": [], "ret": "Result<PublicKey, Status>", "updates": True}}
+
 CASES = [
     # ---- accepted: fragments of the generated text
     ("plus", "fn f(a: u64, b: u64) -> u64 { a + b }", ("expect", ["Rs.uadd Rs.U64_MAX a b"])),
@@ -106,7 +115,50 @@ CASES = [
     ("lock3", "pub struct G { pub log: Mutex<Option<Vec<u32>>> }\nimpl G { fn g(&self) -> Option<Vec<u32>> { let mut o = self.log.lock().unwrap(); o.take() } }",
      ("expect", ["G × (Option (List Nat))", "{ self with log := none }"]), ("G", "g")),
     ("vecunder", "fn f(v: &[u32]) -> usize { let w: Vec<_> = v.iter().map(|x| *x).collect(); w.len() }", ("expect", ["w.length"])),
+    # (round 9) `&mut` parameter of an opaque type + declared state-updating externals (`"updates": true`)
+    ("updext", "fn f(t: &mut Tx, x: u32) -> Result<u32, ()> { let n = t.add(x)?; if n > 3 { t.seal(); } Ok(n) }",
+     ("expect", ["(ext_Tx_add : Tx → Nat → (Rs.M (Tx × Nat)))", "(ext_Tx_seal : Tx → Tx)", "let (s_1, r_2) ← ext_Tx_add t x", "let t := s_1",
+                 "ext_Tx_seal t", "pure (t, n)"]), (None, "f"), UPD_EXT),
+    ("updext-tail", "fn f(t: &mut Tx, x: u32) -> Result<u32, ()> { t.add(x) }",
+     ("expect", ["let (s_1, r_2) ← ext_Tx_add t x", "pure (t, r_2)"]), (None, "f"), UPD_EXT),
+    ("updext-pure", "fn f(t: &mut Tx, x: u32) -> u32 { t.seal(); t.len() + x }",
+     ("expect", ["let s_1 := ext_Tx_seal t", "(ext_Tx_len t)", "pure (t, t_2)"]), (None, "f"), UPD_EXT),
+    ("weak", "pub struct N { pub a: u64 }\npub struct C { pub node: Weak<N> }\nimpl C { fn get_node(&self) -> Arc<N> { self.node.upgrade().unwrap() }\n fn f(&self) -> u64 { self.get_node().a } }",
+     ("expect", ["node : Option N", "Rs.unwrap self.node", "C.get_node self"]), ("C", "f")),
+    ("lock-opaque", "pub struct C { pub tr: Arc<Mutex<Tracker>> }\nimpl C { fn f(&self) -> u32 { self.tr.lock().unwrap().height() } }",
+     ("expect", ["(ext_Tracker_height : Tracker → Nat)", "(ext_Tracker_height self.tr)"]), ("C", "f"), {"Tracker.height": {"params": [], "ret": "u32"}}),
+    ("implinto", "fn f(prefix: impl Into<String>, n: u64) -> String { format!(\"{}/{}\", prefix.into(), n) }", ("expect", ["(«prefix» : String)", "«prefix» ++ \"/\" ++ toString n"])),
+    ("declinto", "fn f(x: Src) -> Dst { let d: Dst = x.into(); d }", ("expect", ["(ext_Src_into : Src → Dst)", "(ext_Src_into x)"]), (None, "f"),
+     {"Src.into": {"params": [], "ret": "Dst"}}),
+    ("declproj", "fn f(k: PubKey) -> Vec<u8> { k.0 }", ("expect", ["(ext_PubKey_0 : PubKey → (List Nat))", "(ext_PubKey_0 k)"]), (None, "f"),
+     {"PubKey.0": {"params": [], "ret": "Vec<u8>"}}),
+    ("traitdefault-mut", "trait T { fn bump(&mut self, x: u32) -> u32; fn set(&mut self, x: u32); fn d(&mut self, x: u32) -> u32 { self.set(x); self.bump(x) + 1 } }",
+     ("expect", ["(ext_set : SelfT → Nat → SelfT)", "(ext_bump : SelfT → Nat → (SelfT × Nat))", "let self := ext_set self x", "let (self, r_1) := ext_bump self x",
+                 "pure (self, t_2)"]), ("T", "d")),
+    ("traitdefault-mut-res", "trait T { fn tr(&mut self, x: u32) -> Result<u32, ()>; fn e(&mut self, x: u32) -> Result<u32, ()> { let y = self.tr(x)?; Ok(y) } }",
+     ("expect", ["(ext_tr : SelfT → Nat → Rs.M (SelfT × Nat))", "let (self, r_1) ← ext_tr self x", "pure (self, y)"]), ("T", "e")),
+    # (round 9) closure externals (`Node::with_channel(&id, |chan| ..)`), `return Err(e)?;`, `Box::new`, `let:` with any initialiser
+    ("withclosure", WC_SRC + "impl H { fn f(&self, n: u64) -> Result<PublicKey, Status> { if self.pv < 5 { return Err(Status::invalid_argument(format!(\"x\")))?; }\n"
+     " let (p, s) = self.node.with_channel(&self.id, |chan| { chan.validate(n)?; if n > 0 { chan.revoke(n + 1) } else { Ok((chan.activate()?, None)) } })?; Ok(p) } }",
+     ("expect", ["def H.f__with_channel_1", "(n : Nat) (chan : Channel) : Rs.M (Channel × (PublicKey × (Option SecretKey)))",
+                 "let s_1 ← ext_Channel_validate chan n", "← ext_Channel_revoke chan t_2", "none))",
+                 "(ext_Node_with_channel : {T : Type} → Node → ChannelId → (Channel → Rs.M (Channel × T)) → Rs.M T)",
+                 "Rs.fail \"Status::invalid_argument\"",
+                 "ext_Node_with_channel self.node self.id (H.f__with_channel_1 ext_Channel_validate ext_Channel_revoke ext_Channel_activate n)"]),
+     ("H", "f"), WC_EXT),
+    ("boxnew", "pub struct R { pub a: u64 }\nfn f(x: u64) -> Result<Box<R>, ()> { Ok(Box::new(R { a: x })) }", ("expect", ["pure { a := x }"])),
+    ("letany", "fn f(o: Option<Sk>) -> Option<Ds> { let r = o.map(|s| Ds(s[..].try_into().unwrap())); r }",
+     ("expect", ["(ext_let_r : (Option Sk) → (Option Ds))", "let r := (ext_let_r o)"]), (None, "f"),
+     {"let:r": {"callee": "*", "args": ["o"], "ret": "Option<Ds>"}}),
     # ---- refused (fail closed)
+    ("r-withclosure-value", WC_SRC + "impl H { fn f(&self, n: u64) -> bool { let r = self.node.with_channel(&self.id, |chan| { chan.revoke(n) }); true } }",
+     ("refuse", "used other than by `?`"), ("H", "f"), WC_EXT),
+    ("r-lock-bare-opaque", "pub struct C { pub tr: Tracker, pub other: Mutex<Tracker> }\nimpl C { fn f(&self) -> u32 { self.tr.lock().unwrap().height() } }",
+     ("refuse", "method .lock on ('opaque', 'Tracker')"), ("C", "f"), {"Tracker.height": {"params": [], "ret": "u32"}}),
+    ("r-into-unknown", "fn f(x: Src) -> Dst { let d: Dst = x.into(); d }", ("refuse", ".into() without a known widening target")),
+    ("r-traitdefault-refmut", "trait T { fn set(&mut self, x: u32); fn d(&self, x: u32) { self.set(x); } }", ("refuse", "called from a &self default method"), ("T", "d")),
+    ("r-updext-value", "fn f(t: &mut Tx, x: u32) -> bool { let r = t.add(x); true }", ("refuse", "used other than by `?`"), (None, "f"), UPD_EXT),
+    ("r-updext-undeclared", "fn f(t: &mut Tx) { t.other(); }", ("refuse", "method .other on ('opaque', 'Tx')"), (None, "f"), UPD_EXT),
     ("r-entryloop-partial", "fn f(a: BTreeMap<K2, u64>, b: BTreeMap<K2, u64>) -> BTreeMap<K2, u64> { let mut m = a; for (k, v) in b { m.entry(k).and_modify(|e| *e += v).or_insert(v); } m }",
      ("refuse", "order the model does not know")),
     ("r-entryloop-otherkey", "fn f(a: BTreeMap<K2, u64>, b: BTreeMap<K2, K2>) -> BTreeMap<K2, u64> { let mut m = a; for (k, v) in b { m.entry(v).or_insert(0); } m }",
@@ -137,12 +189,15 @@ CASES = [
     # (b1617, round 9) a newtype read as its component: `&mut self` writes `self.0`, `Type::f()` of a tuple struct
     ("tsmut", "pub struct M(Vec<u32>);\nimpl M { pub fn add(&mut self, x: u32) { self.0.push(x); } }", ("expect", ["(self : List Nat)", "(self ++ [x])"]), ("M", "add")),
     ("tsassoc", "pub struct M(Vec<u32>);\nimpl M { pub fn new() -> Self { M(vec![]) } }\nfn f() -> M { M::new() }", ("expect", ["(M.new)"])),
+    ("smapclear", "pub struct T { pub m: BTreeMap<String, u32> }\nimpl T { pub fn wipe(&mut self) { self.m.clear(); } }", ("expect", ["{ self with m := [] }"]), ("T", "wipe")),
     ("r-orbind", "fn f(e: E) -> u32 { match e { E::A(n) | E::A(n) => n, _ => 0 } }", ("refuse", "or-pattern that binds")),
     # (b1012, round 9) `x.into()` between two structs of the unit = the one `impl From<_> for T`; no such impl / no wanted type: refused
     ("intofrom", "pub struct T { pub a: u64 }\nimpl From<S> for T { fn from(s: S) -> Self { T { a: s.a } } }\nfn f(s: S) -> T { s.into() }",
      ("expect", ["T.«from» s", "a := s.a"])),
     ("itermut", "impl S { fn f(&mut self) { for b in self.v.iter_mut() { *b = 0; } } }", ("expect", ["v := (self.v.map (fun b => 0))"]), ("S", "f")),
     ("r-itermut", "impl S { fn f(&mut self) { for b in self.v.iter_mut() { *b = 0; self.a = 1; } } }", ("refuse", "iter_mut"), ("S", "f")),
+    ("unwrapres", "fn g(a: u64) -> Result<u64, ()> { if a > 3 { return Err(()); } Ok(a) }\nfn f(a: u64) -> Result<u64, ()> { let x = g(a).unwrap(); Ok(x + 1) }",
+     ("expect", ["Rs.unwrapOk (g a)"])),
     ("r-into-noimpl", "pub struct T { pub a: u64 }\nfn f(s: S) -> T { s.into() }", ("refuse", "without a known widening target")),
     ("r-into-wrongarg", "pub struct T { pub a: u64 }\npub struct W { pub a: u64 }\nimpl From<W> for T { fn from(s: W) -> Self { T { a: s.a } } }\nfn f(s: S) -> T { s.into() }",
      ("refuse", "without a known widening target")),
@@ -180,6 +235,76 @@ def run(verbose=False):
                 bad.append("%s: refused: %s" % (name, e))
         except Exception as e:        # a crash is a failure of the self-test, never a silent pass
             bad.append("%s: translator crashed: %r" % (name, e))
+    bad += run_arms(verbose)
+    return bad
+
+
+ARM_SRC = """
+pub struct H { pub ver: u32 }
+impl Handler for H {
+    fn do_handle(&self, msg: Message) -> Result<u32, ()> {
+        match msg {
+            Message::Ping(p) => {
+                let x = p.id + 1;
+                Ok(x)
+            }
+            Message::Pong(p) => Ok(p.id),
+            Message::Rev(m) => {
+                if self.ver < 5 {
+                    return Err(());
+                }
+                Ok(m.n)
+            }
+            _ => Err(()),
+        }
+    }
+}
+pub struct Ping { pub id: u32 }
+pub struct Rev { pub n: u32 }
+"""
+
+
+def run_arms(verbose=False):
+    """arms of a dispatching `match` as methods (translate/fn_arms.py): shape of the rewrite and what stays refused"""
+    import fn_arms
+    bad = []
+
+    def unit(src, plan):
+        return Unit("/nonexistent", "<test:arms>", "VlsModel.Test", src=src, rewrite=fn_arms.make_arm_splitter("<test:arms>", plan))
+    arm = lambda fn, param: {"fn": fn, "param": param, "ret": "Result<u32, ()>"}
+    plan = {"H::do_handle": {"scrutinee": "msg", "enum": "Message", "arms": {"Ping": arm("h_ping", "Ping"), "Rev": arm("h_rev", "Rev")}}}
+    try:
+        u = unit(ARM_SRC, plan)
+        u.get_fn("H", "h_ping"); u.get_fn("H", "h_rev")
+        t = norm(u.emit())
+        for frag in ["def H.h_ping", "Rs.uadd Rs.U32_MAX p.id 1", "def H.h_rev", "if (decide (self.ver < 5)) then"]:
+            if norm(frag) not in t:
+                bad.append("arms: fragment %r not in the output" % frag)
+                if verbose: print(u.emit())
+        if ARM_SRC.count("\n") != u.fi.src.count("\n"):
+            bad.append("arms: the rewrite changed the line count")
+    except Exception as e:
+        bad.append("arms: refused or crashed: %r" % (e,))
+    refusals = [
+        ("r-arm-expr", plan_for := {"H::do_handle": {"scrutinee": "msg", "enum": "Message", "arms": {"Pong": arm("h_pong", "Ping")}}}, ARM_SRC, "no block body"),
+        ("r-arm-missing", {"H::do_handle": {"scrutinee": "msg", "enum": "Message", "arms": {"Nope": arm("h_nope", "Ping")}}}, ARM_SRC, "no arm for"),
+        ("r-arm-after-catch-all", {"H::do_handle": {"scrutinee": "msg", "enum": "Message", "arms": {"Rev": arm("h_rev", "Rev")}}},
+         ARM_SRC.replace("            Message::Pong(p) => Ok(p.id),", "            _ => Err(()),"), "after a catch-all"),
+        ("r-arm-twice", {"H::do_handle": {"scrutinee": "msg", "enum": "Message", "arms": {"Ping": arm("h_ping", "Ping")}}},
+         ARM_SRC.replace("Message::Pong(p) => Ok(p.id),", "Message::Ping(p) => Ok(p.id),"), "has two arms"),
+        ("r-arm-not-a-match", {"H::do_handle": {"scrutinee": "other", "enum": "Message", "arms": {"Ping": arm("h_ping", "Ping")}}}, ARM_SRC, "not a single `match"),
+    ]
+    for name, pl, src, why in refusals:
+        try:
+            u = unit(src, pl)
+            fn = list(pl["H::do_handle"]["arms"].values())[0]["fn"]
+            u.get_fn("H", fn)
+            bad.append("%s: translated but must be refused (%s)" % (name, why))
+        except RsError as e:
+            if why not in str(e) and why not in str(u.rewrite_failed if 'u' in dir() else ""):
+                bad.append("%s: refused for another reason: %s" % (name, e))
+        except Exception as e:
+            bad.append("%s: crashed: %r" % (name, e))
     return bad
 
 
